@@ -441,6 +441,9 @@ func (d *Decoder) Repair(checkParity bool) ([]string, error) {
 		}
 
 		entry := d.fileEntries[i]
+		if entry.header.FileBytes > uint64(len(shards[i])) {
+			return repairedPaths, errors.New("file is larger than the parity data")
+		}
 		data = shards[i][:entry.header.FileBytes]
 		if sixteenKHash(data) != entry.header.SixteenKHash {
 			return repairedPaths, errors.New("hash mismatch (16k) in reconstructed data")
